@@ -1,7 +1,8 @@
 /-!
 # Hand model of the crystal containers of xraylib (core Lean only, executable)
 
-Mirrors `src/crystal_diffraction.c` of the **repaired** tree (notes/proposed_fixes/C14-1..4.diff applied):
+Mirrors `src/crystal_diffraction.c` of the **repaired** tree (notes/proposed_fixes/C14-1..4.diff = commits
+3e86fb4, f997fc4, b5bc6d9, ff2720a of /repo; line numbers are those of that file):
 `Crystal_Find` (static helper), `Crystal_ExtendArray`, `Crystal_ArrayInit`, `Crystal_ArrayFree`,
 `Crystal_MakeCopy`, `Crystal_Free`, `Crystal_GetCrystalsList`, `Crystal_GetCrystal`, `Crystal_AddCrystal`,
 `Crystal_ReadFile`, the comparators `compareCrystalStructs` / `matchCrystalStruct` (`src/xrayvars.c:232-251`)
@@ -209,7 +210,7 @@ end Mem
 
 /-! ### src/crystal_diffraction.c (repaired tree) -/
 
-/-- `Crystal_Find` (static; added by C14-3): `NULL` for an empty array, else `bsearch` with
+/-- `Crystal_Find` (crystal_diffraction.c:56-60; static, added by fix b5bc6d9): `NULL` for an empty array, else `bsearch` with
 `matchCrystalStruct` — by contract of `bsearch`: an element comparing equal, if there is one (the first, when the
 vector is not sorted-unique and libc's choice would be unspecified).  Returns the index. -/
 def Crystal_Find (m : Mem α) (material : String) (arr : Nat) : M (Option Nat) := do
@@ -220,7 +221,7 @@ def Crystal_Find (m : Mem α) (material : String) (arr : Nat) : M (Option Nat) :
     let names ← m.namesOf cs
     pure (names.findIdx? (· == material))
 
-/-- `Crystal_ExtendArray` (static; as repaired by C14-2): refuse for `&Crystal_arr` (address 0), else
+/-- `Crystal_ExtendArray` (:65-88; static, as repaired by fix f997fc4): refuse for `&Crystal_arr` (address 0), else
 `realloc(c_array->crystal, (n_alloc + n_new) * sizeof(Crystal_Struct))` and update the struct in place. -/
 def Crystal_ExtendArray (m : Mem α) (arr : Nat) (n_new : Nat) : M (Mem α × Bool × Option Err) := do
   if arr = 0 then
@@ -239,7 +240,7 @@ def Crystal_ExtendArray (m : Mem α) (arr : Nat) (n_new : Nat) : M (Mem α × Bo
       let hdrs ← m.hdrs.set arr { h with n_alloc := h.n_alloc + n_new, crystal := some b }
       pure ({ m with bufs := bufs, hdrs := hdrs }, true, none)
 
-/-- `Crystal_ArrayInit` (crystal_diffraction.c:95-121 of the unchanged tree) -/
+/-- `Crystal_ArrayInit` (:92-118) -/
 def Crystal_ArrayInit (m : Mem α) (n_crystal_alloc : Int) : M (Mem α × Option Nat × Option Err) := do
   let (hdrs, a) := m.hdrs.alloc ⟨0, n_crystal_alloc.toNat, none⟩
   if n_crystal_alloc = 0 then
@@ -260,7 +261,7 @@ def freeCells (m : Mem α) : List (CStruct α) → M (Mem α)
       let atms ← m.atms.free c.atom
       freeCells { m with strs := strs, atms := atms } cs
 
-/-- `Crystal_ArrayFree` (:125-139) -/
+/-- `Crystal_ArrayFree` (:122-136) -/
 def Crystal_ArrayFree (m : Mem α) (arr : Option Nat) : M (Mem α) :=
   match arr with
   | none => pure m
@@ -274,7 +275,7 @@ def Crystal_ArrayFree (m : Mem α) (arr : Option Nat) : M (Mem α) :=
       let hdrs ← m.hdrs.free a
       pure { m with bufs := bufs, hdrs := hdrs }
 
-/-- `Crystal_MakeCopy` (:143-171): a new struct with a `strdup`ed name and a `memcpy`ed atom vector.
+/-- `Crystal_MakeCopy` (:140-168): a new struct with a `strdup`ed name and a `memcpy`ed atom vector.
 (The struct is allocated first in C; the stores are separate, so allocating it last with its final content
 gives the same memory.) -/
 def Crystal_MakeCopy (m : Mem α) (crystal : Option CPtr) : M (Mem α × Option Nat × Option Err) :=
@@ -291,7 +292,7 @@ def Crystal_MakeCopy (m : Mem α) (crystal : Option CPtr) : M (Mem α × Option 
         pure ({ m with strs := strs, atms := atms, css := css }, some out, none)
       else .error .outOfBounds
 
-/-- `Crystal_Free` (:175-181) -/
+/-- `Crystal_Free` (:172-178) -/
 def Crystal_Free (m : Mem α) (crystal : Option Nat) : M (Mem α) :=
   match crystal with
   | none => pure m
@@ -310,7 +311,7 @@ def dupAll (strs : Store String) : List String → Store String × List Nat
       let (strs, ps) := dupAll strs ss
       (strs, p :: ps)
 
-/-- `Crystal_GetCrystalsList` (:185-207): returns the vector, `*nCrystals` -/
+/-- `Crystal_GetCrystalsList` (:182-203): returns the vector, `*nCrystals` -/
 def Crystal_GetCrystalsList (m : Mem α) (arr : Option Nat) : M (Mem α × Option Nat × Nat × Option Err) := do
   let a := arr.getD 0
   let h ← m.hdrs.get a
@@ -334,7 +335,7 @@ def releaseList (m : Mem α) (v : Nat) : M (Mem α × List String) := do
   let vecs ← m.vecs.free v
   pure ({ m with strs := strs, vecs := vecs }, names)
 
-/-- `Crystal_GetCrystal` (:211-232) -/
+/-- `Crystal_GetCrystal` (:207-227) -/
 def Crystal_GetCrystal (m : Mem α) (material : Option String) (arr : Option Nat) : M (Mem α × Option Nat × Option Err) :=
   match material with
   | none => pure (m, none, some ⟨XRL_ERROR_INVALID_ARGUMENT, "Crystal cannot be NULL"⟩)
@@ -378,7 +379,7 @@ def storeCopy (vol : Cell α → α) (m : Mem α) (a : Nat) (tmp : Nat) : M (Mem
     let css ← m.css.free tmp
     sortArray { m with hdrs := hdrs, css := css } a
 
-/-- `Crystal_AddCrystal` (:486-532 of the unchanged tree, as repaired by C14-1..3). -/
+/-- `Crystal_AddCrystal` (:483-525, as repaired by fixes 3e86fb4, f997fc4, b5bc6d9). -/
 def Crystal_AddCrystal (vol : Cell α → α) (m : Mem α) (crystal : Option CPtr) (arr : Option Nat) :
     M (Mem α × Int × Option Err) := do
   let a := arr.getD 0
@@ -401,7 +402,7 @@ def Crystal_AddCrystal (vol : Cell α → α) (m : Mem α) (crystal : Option CPt
           let m ← storeCopy vol m a tmp
           pure (m, 1, none)
 
-/-! ### `Crystal_ReadFile` (as repaired by C14-4)
+/-! ### `Crystal_ReadFile` (:532-712, as repaired by fix ff2720a)
 
 The tokenisation done by `fgets/sscanf/fscanf` is libc's and is trusted by contract (DESIGN §6): the model takes
 the *parsed* content — the well-formed entries in file order, up to the first malformed one. -/
